@@ -432,3 +432,34 @@ Lemma inline_example :
   | None => False
   end.
 Proof. vm_compute. repeat split; reflexivity. Qed.
+
+(** ------------------------------------------------------------------ across a workspace reload
+    The interleaving of the inline handlers with a workspace reload (snapshot / clear / re-index /
+    version loop) is the LTS of C29/Model.v, parametrised by whether [sync_open_file] bumps the
+    open-documents version on every call; C29/Proofs.v proves convergence for [always = true].
+    Here the parameter is instantiated with the fact regenerated from today's source. *)
+Require EV.C29.Model EV.C29.Proofs.
+Require Import EV.Gen.C27_Sync.
+
+Lemma today_version_bumps :
+  sync_bumps_always = true /\ close_bumps_always = true /\ handler_sections_ok = true /\ reload_sections_ok = true.
+Proof. repeat split; reflexivity. Qed.
+
+Lemma last_text_wins_across_reload :
+  forall (disk : C29.Model.uri -> option C29.Model.text) (s0 s : C29.Model.st),
+    C29.Model.start disk s0 ->
+    C29.Model.reach disk sync_bumps_always s0 s ->
+    C29.Model.quiescent s ->
+    forall u,
+      C29.Model.wopen s u = C29.Model.editor (C29.Model.wopen s0) (C29.Model.queue s0) u /\
+      C29.Model.an s u = match C29.Model.wopen s u with Some t => Some t | None => disk u end.
+Proof.
+  intros disk s0 s H0 Hr Hq u. destruct today_version_bumps as [Hb _]. rewrite Hb in Hr.
+  exact (C29.Proofs.reload_converges disk s0 s H0 Hr Hq u).
+Qed.
+
+Lemma bump_only_new_refuted :
+  C29.Model.start C29.Proofs.no_disk C29.Proofs.stale_start /\
+  exists s, C29.Model.reach C29.Proofs.no_disk false C29.Proofs.stale_start s /\ C29.Model.quiescent s /\
+            C29.Model.wopen s 0%nat = Some 2%nat /\ C29.Model.an s 0%nat = Some 1%nat.
+Proof. exact C29.Proofs.bump_only_new_refuted. Qed.
